@@ -87,6 +87,85 @@ func (w *World) probePasses(budget int) (changed bool, ok bool) {
 	return w.storeVersion() != ver, true
 }
 
+// c10OlderRevisionKeys lists the projection keys of older revisions (and of what only they or
+// their phase objects control) of every deployment whose newest revision is unavailable in
+// both worlds, plus the deployment itself.
+func c10OlderRevisionKeys(a, b *World) map[string]bool {
+	out := map[string]bool{}
+	older := map[string]bool{} // uid of older ObjectSets and their phase objects, both worlds
+	newestUnavailable := func(w *World, od store.Obj) (bool, []store.Obj) {
+		sets := setsOfDeployment(w.Mgmt.Objs, od)
+		var newest store.Obj
+		for _, st := range sets {
+			if newest == nil || store.Int(st, "status", "revision") > store.Int(newest, "status", "revision") {
+				newest = st
+			}
+		}
+		if newest == nil || CondTrue(newest, "Available") {
+			return false, nil
+		}
+		var old []store.Obj
+		for _, st := range sets {
+			if st != nil && store.Str(st, "metadata", "uid") != store.Str(newest, "metadata", "uid") {
+				old = append(old, st)
+			}
+		}
+		return true, old
+	}
+	for k, od := range a.Mgmt.Objs {
+		if k.Group != PKOGroup || !isODKind(k.Kind) {
+			continue
+		}
+		odb, ok := b.Mgmt.Objs[k]
+		if !ok {
+			continue
+		}
+		ua, olda := newestUnavailable(a, od)
+		ub, oldb := newestUnavailable(b, odb)
+		if !ua || !ub {
+			continue
+		}
+		out["mgmt "+k.String()] = true
+		for _, pair := range []struct {
+			w   *World
+			old []store.Obj
+		}{{a, olda}, {b, oldb}} {
+			for _, st := range pair.old {
+				out["mgmt "+store.KeyOf(st).String()] = true
+				older[store.Str(st, "metadata", "uid")] = true
+				for pk, po := range pair.w.Mgmt.Objs {
+					if pk.Group == PKOGroup && isPhaseKind(pk.Kind) && IsControlledBy(po, st, "native") {
+						out["mgmt "+pk.String()] = true
+						older[store.Str(po, "metadata", "uid")] = true
+					}
+				}
+			}
+		}
+	}
+	if len(older) == 0 {
+		return out
+	}
+	for _, w := range []*World{a, b} {
+		for _, cl := range w.Clusters() {
+			strategy := "native"
+			if cl.Name == "hosted" {
+				strategy = "annotation"
+			}
+			for k, o := range cl.Objs {
+				if k.Group == PKOGroup {
+					continue
+				}
+				for _, c := range Controllers(o, strategy) {
+					if older[c.UID] {
+						out[cl.Name+" "+k.String()] = true
+					}
+				}
+			}
+		}
+	}
+	return out
+}
+
 // c10SecondReference replays the scenario in a fresh undisturbed world under a random fair
 // schedule up to (and including) epoch and returns its projection.
 func c10SecondReference(w *World, spec RunSpec, scnPrefix []uint32, epoch int) (map[string]string, bool) {
@@ -265,6 +344,26 @@ func planC10(w *World, spec RunSpec) {
 				}
 				if len(kept) < len(diff) {
 					w.Stats.Probe("c10-undisturbed-runs-disagree")
+				}
+				diff = kept
+			}
+		}
+		if len(diff) > 0 {
+			// While the newest revision of a deployment is unavailable, what happens to its older
+			// revisions is a one-way decision taken on who was available at which moment (kept
+			// while serving, archived early once unavailable and disjoint): every outcome is a
+			// correct end state, so older revisions, what only they control, and the deployment's
+			// own summary of them are not compared in that situation.
+			skip := c10OlderRevisionKeys(ref, w)
+			if len(skip) > 0 {
+				var kept []string
+				for _, d := range diff {
+					f := strings.Fields(d)
+					if len(f) >= 3 && skip[f[1]+" "+strings.TrimSuffix(f[2], ":")] {
+						w.Stats.Probe("c10-older-revision-difference-not-compared")
+						continue
+					}
+					kept = append(kept, d)
 				}
 				diff = kept
 			}
